@@ -30,7 +30,7 @@ def Obs.ids (o : Obs) : List Nat := (List.range o.nProd).flatMap o.prodIds
 /-- Program order of the callers: each producer queues its messages one after the other. -/
 def progPred (m : Nat) : Option Nat := if m % 1000 = 0 then none else some (m - 1)
 
-def obsCfg : Cfg := ⟨50, progPred⟩
+def obsCfg : Cfg := ⟨50, false, progPred⟩
 
 /-- Per producer: (sent-before-disconnect but not written, lost one if any, the rest). -/
 def Obs.split (o : Obs) (i : Nat) : List Nat × Option Nat × List Nat :=
@@ -43,14 +43,15 @@ def Obs.split (o : Obs) (i : Nat) : List Nat × Option Nat × List Nat :=
 def witness (o : Obs) : List Choice :=
   let prods := List.range o.nProd
   let wPart := o.written.flatMap (fun m =>
-    [.check m, .send m, .qRecvOut, .oRecv, .oStep, .oStep, .oStep, .qRecvDone])
+    [.check m, .send m, .qRecvOut, .oRecv, .oStep, .sRecv, .oStep, .oStep, .oStep, .qRecvDone])
   let sentPart := prods.flatMap (fun i => (o.split i).1.flatMap (fun x => [.check x, .send x, .qRecvOut]))
   let lostChecks := prods.flatMap (fun i => match (o.split i).2.1 with
     | some l => [Choice.check l] | none => [])
   let imm1 := prods.flatMap (fun i => match (o.split i).2.1 with
     | some _ => [] | none => (o.split i).2.2.map Choice.check)
   let k := o.nProd * o.nMsg + 4
-  let handlers := [Choice.qQuit] ++ List.replicate k .qStep ++ [.oQuit] ++ List.replicate k .oStep
+  let handlers := [Choice.qQuit] ++ List.replicate k .qStep ++ [.oQuit] ++ List.replicate k .oStep ++
+    [.iExit, .sInQuit, .sOutQuit]
   let lostSends := prods.flatMap (fun i => match (o.split i).2.1 with
     | some l => [Choice.send l] | none => [])
   let imm2 := prods.flatMap (fun i => match (o.split i).2.1 with
